@@ -71,7 +71,7 @@ package callbacks
 //@   ensures skip-means-nothing: old(db.Config.SkipDefaultTransaction) ==> commits == old(commits) && rollbacks == old(rollbacks) [C19,C05]
 
 //@ # ---------- C13: hooks ----------
-//@ ghost hookCalls pendingHookErr
+//@ ghost hookCalls pendingHookErr hooksRun
 //@ event callparam fc
 //@   in callbacks.callMethod
 //@   do hookCalls = hookCalls + 1
@@ -95,22 +95,31 @@ package callbacks
 
 //@ event invoke BeforeSaveInterface.BeforeSave
 //@   do pendingHookErr = 1
+//@   do hooksRun = hooksRun + 1
 //@ event invoke BeforeCreateInterface.BeforeCreate
 //@   do pendingHookErr = 1
+//@   do hooksRun = hooksRun + 1
 //@ event invoke AfterCreateInterface.AfterCreate
 //@   do pendingHookErr = 1
+//@   do hooksRun = hooksRun + 1
 //@ event invoke AfterSaveInterface.AfterSave
 //@   do pendingHookErr = 1
+//@   do hooksRun = hooksRun + 1
 //@ event invoke BeforeUpdateInterface.BeforeUpdate
 //@   do pendingHookErr = 1
+//@   do hooksRun = hooksRun + 1
 //@ event invoke AfterUpdateInterface.AfterUpdate
 //@   do pendingHookErr = 1
+//@   do hooksRun = hooksRun + 1
 //@ event invoke BeforeDeleteInterface.BeforeDelete
 //@   do pendingHookErr = 1
+//@   do hooksRun = hooksRun + 1
 //@ event invoke AfterDeleteInterface.AfterDelete
 //@   do pendingHookErr = 1
+//@   do hooksRun = hooksRun + 1
 //@ event invoke AfterFindInterface.AfterFind
 //@   do pendingHookErr = 1
+//@   do hooksRun = hooksRun + 1
 //@ event call gorm.(*DB).AddError
 //@   do pendingHookErr = 0
 
@@ -118,6 +127,7 @@ package callbacks
 //@   tags C13
 //@   requires pendingHookErr == 0
 //@   ensures every-hook-error-is-recorded: pendingHookErr == 0
+//@   ensures a-hook-that-ran-is-reported: hooksRun > old(hooksRun) ==> result
 //@ immutable DB.Statement
 //@   writers gorm.(*DB).Session gorm.(*DB).getInstance gorm.Open gorm.(*DB).Begin gorm.(*DB).*
 //@   tags C13
@@ -220,6 +230,55 @@ package callbacks
 //@   loop "i := 0; i < reflectResults.Len(); i++" entry-do cleanupSets = relSets
 //@   loop "i := 0; i < reflectResults.Len(); i++" invariant a-single-parent-was-reset: cleanedKind == 25 ==> cleanupSets == sets0 + 1
 //@   loop "i := 0; i < reflectResults.Len(); i++" invariant every-parent-of-a-slice-was-reset: (cleanedKind == 23 || cleanedKind == 17) ==> cleanupSets == resetUpTo
+
+//@ # ---------- C11: nested preloads run with the settings of the query they belong to ----------
+//@ # The handle a nested preload runs on keeps the Unscoped flag of the query (soft-deleted rows are loaded at every
+//@ # level or at none), and the records of a joined relation are preloaded with the join names below that relation,
+//@ # not with those of the level above (a same-named relation one level down is not "already joined").
+//@ site preload-handle-keeps-unscoped
+//@   match store Statement.Unscoped
+//@   in callbacks.preloadDB
+//@   min-sites 1
+//@   assert same-as-the-query: recv == tx.Statement && arg0 == db.Statement.Unscoped [C11,C08]
+//@ site joined-records-preloaded-with-their-own-joins
+//@   match call callbacks.preloadEntryPoint
+//@   in callbacks.preloadEntryPoint
+//@   min-sites 3
+//@   assert joins-below-the-relation: defined(nestedJoins) ==> arg1 == nestedJoins && arg0 == tx [C11]
+//@   assert embedded-relations-stay-on-this-level: !defined(nestedJoins) ==> arg1 == joins && arg0 == db [C11]
+
+//@ # ---------- C16/C03: the generated key is read back only for a row that was inserted ----------
+//@ # After INSERT ... ON CONFLICT DO NOTHING stored nothing the driver's LastInsertId still names the connection's
+//@ # previous insert: it must not be written into the record (a later Save would overwrite that other row).
+//@ site key-read-back-only-after-an-insert
+//@   match invoke Result.LastInsertId
+//@   in callbacks.Create$1
+//@   min-sites 1
+//@   assert a-row-was-inserted: db.RowsAffected != 0 [C16,C03]
+
+//@ # ---------- C15: every read path selects the model's own columns when tables are joined ----------
+//@ # Joins may come from Joins(...) or from an explicit clause.From{Joins: ...}: in both cases SELECT is narrowed to
+//@ # the model's columns, or same-named columns of the joined table would overwrite the model's fields for Find/First
+//@ # but not for Pluck/Count. The plain FROM is only used when there is no join of either kind.
+//@ site plain-from-only-without-joins
+//@   match call gorm.(*Statement).AddClauseIfNotExists
+//@   in callbacks.BuildQuerySQL
+//@   min-sites 2
+//@   assert no-join-of-either-kind: is(arg1, clause.From) ==> len(db.Statement.Joins) == 0 && len(fromClause.Joins) == 0 [C15]
+
+//@ # ---------- C13/C05: the error of a cascaded delete is the error of the operation ----------
+//@ # Delete with Select(association) deletes the associated rows first, hooks included: what that nested delete
+//@ # reports (a failing BeforeDelete hook of the associated model) is recorded on the operation, which then stops.
+//@ ghost nestedErrTag nestedErrBox
+//@ event call gorm.(*DB).Delete
+//@   in callbacks.DeleteBeforeAssociations
+//@   do nestedErrTag = tagof(result.Error)
+//@   do nestedErrBox = boxof(result.Error)
+//@ site cascaded-delete-error-recorded
+//@   match call gorm.(*DB).AddError
+//@   in callbacks.DeleteBeforeAssociations
+//@   min-sites 2
+//@   assert records-what-the-nested-delete-reported: arg0 == db && tagof(arg1) == nestedErrTag && boxof(arg1) == nestedErrBox [C13,C05]
 
 //@ # ---------- C13: association values saved once per operation ----------
 //@ # "Each hook fires exactly once per record": a record reached twice through associations in one Create/Update
